@@ -123,3 +123,20 @@ func verifHosts(l *roundRobinLoadBalancer) []*Host { return l.hosts.Load().([]*H
 //@   ensures inv(as(result, *defaultReconnectPolicy)) && as(result, *defaultReconnectPolicy).attempts == 0
 //@   ensures as(result, *defaultReconnectPolicy).baseDelay == d.baseDelay && as(result, *defaultReconnectPolicy).maxDelay == d.maxDelay
 //@   modifies nothing
+
+// ---------------------------------------------------------------------------------------------
+// Connection plumbing shared by C01/C09/C13/C14
+// ---------------------------------------------------------------------------------------------
+
+// Conn.Write enqueues the sender for the writer goroutine or fails; it changes nothing the
+// contracts talk about.
+//@ func proxycore.Conn.Write [C01]
+//@   requires c != nil
+//@   modifies nothing
+
+// ConnectSession as seen by its callers: network activity and fresh objects only; the session it
+// returns carries exactly the configuration it was asked for (C07).
+//@ func proxycore.ConnectSession [C07]
+//@   trusted
+//@   ensures result1 == nil ==> result0 != nil && fresh(result0) && result0.config.Version == config.Version && result0.config.Keyspace == config.Keyspace && result0.config.Compression == config.Compression
+//@   modifies nothing
